@@ -10,8 +10,10 @@ From TV.Lib Require Import Base.
 From TV.Uring Require Import Gen Model.
 Open Scope N_scope.
 
-Record cfile := { cur : list N; dur : list N }.
-Record cfs := { cfiles : list cfile; cfds : list (N * (N * N)) }.    (* fd -> (file index, access: bit 0 read, bit 1 write) *)
+(* `pend` = (offset, length) of the writes since the last fsync of the file: Fs::used_bytes
+   charges every pending write that ends beyond the durable length separately. *)
+Record cfile := { cur : list N; dur : list N; pend : list (N * N) }.
+Record cfs := { cfiles : list cfile; cfds : list (N * (N * N)); ccap : option N }.    (* fd -> (file index, access: bit 0 read, bit 1 write) *)
 
 Fixpoint fd_entry (fd : N) (t : list (N * (N * N))) : option (N * N) :=
   match t with
@@ -28,7 +30,7 @@ Definition c_ok (s : cfs) (fd : N) (u : use) : bool :=
   end.
 
 Definition get_file (s : cfs) (f : N) : cfile :=
-  nth (N.to_nat f) (cfiles s) {| cur := []; dur := [] |}.
+  nth (N.to_nat f) (cfiles s) {| cur := []; dur := []; pend := [] |}.
 
 Fixpoint upd_nth {A} (i : nat) (x : A) (l : list A) : list A :=
   match l, i with
@@ -38,7 +40,7 @@ Fixpoint upd_nth {A} (i : nat) (x : A) (l : list A) : list A :=
   end.
 
 Definition set_file (s : cfs) (f : N) (c : cfile) : cfs :=
-  {| cfiles := upd_nth (N.to_nat f) c (cfiles s); cfds := cfds s |}.
+  {| cfiles := upd_nth (N.to_nat f) c (cfiles s); cfds := cfds s; ccap := ccap s |}.
 
 (* Fs::read_file *)
 Definition read_bytes (content : list N) (off len : N) : list N :=
@@ -56,21 +58,39 @@ Definition c_read (s : cfs) (fd off len : N) : cfs * Z * list N :=
   | Some f => let d := read_bytes (cur (get_file s f)) off len in (s, Z.of_nat (length d), d)
   end.
 
+Definition ENOSPC : Z := - Z.of_N errno_ENOSPC.
+
+(* Fs::used_bytes *)
+Definition file_used (c : cfile) : N :=
+  let dl := N.of_nat (length (dur c)) in
+  fold_left (fun acc ol => acc + (fst ol + snd ol - dl)) (pend c) dl.
+Definition used_bytes (s : cfs) : N := fold_left (fun acc c => acc + file_used c) (cfiles s) 0.
+(* Fs::check_space *)
+Definition no_space (s : cfs) (additional : N) : bool :=
+  match ccap s with Some cap => cap <? used_bytes s + additional | None => false end.
+
+(* File::write_at_internal after the descriptor checks = exec_write: capacity check on
+   the growth beyond the current end of file (the gap of a write past EOF included),
+   then Fs::write_file *)
 Definition c_write (s : cfs) (fd off : N) (d : list N) : cfs * Z :=
   match fd_file fd (cfds s) with
   | None => (s, EBADF)
   | Some f =>
-      match d with
-      | [] => (s, 0%Z)
-      | _ => let c := get_file s f in
-             (set_file s f {| cur := write_bytes (cur c) off d; dur := dur c |}, Z.of_nat (length d))
-      end
+      let c := get_file s f in
+      let len := N.of_nat (length d) in
+      let additional := off + len - N.of_nat (length (cur c)) in
+      if (0 <? additional) && no_space s additional then (s, ENOSPC)
+      else match d with
+           | [] => (s, 0%Z)
+           | _ => (set_file s f {| cur := write_bytes (cur c) off d; dur := dur c; pend := pend c ++ [(off, len)] |},
+                   Z.of_nat (length d))
+           end
   end.
 
 Definition c_fsync (s : cfs) (fd : N) : cfs * Z :=
   match fd_file fd (cfds s) with
   | None => (s, EBADF)
-  | Some f => let c := get_file s f in (set_file s f {| cur := cur c; dur := cur c |}, 0%Z)
+  | Some f => let c := get_file s f in (set_file s f {| cur := cur c; dur := cur c; pend := [] |}, 0%Z)
   end.
 
 Definition CFS : fsapi :=
@@ -78,12 +98,12 @@ Definition CFS : fsapi :=
 
 (* ---- external activity rendered by the generator as HFs events ---- *)
 Definition x_open (fd f mode : N) (s : cfs) : cfs * (Z * list N) :=
-  ({| cfiles := cfiles s; cfds := (fd, (f, mode)) :: cfds s |}, (0%Z, [])).
+  ({| cfiles := cfiles s; cfds := (fd, (f, mode)) :: cfds s; ccap := ccap s |}, (0%Z, [])).
 Definition x_close (fd : N) (s : cfs) : cfs * (Z * list N) :=
-  ({| cfiles := cfiles s; cfds := filter (fun kf => negb (fst kf =? fd)) (cfds s) |}, (0%Z, [])).
+  ({| cfiles := cfiles s; cfds := filter (fun kf => negb (fst kf =? fd)) (cfds s); ccap := ccap s |}, (0%Z, [])).
 (* Fs::crash + every File dropped *)
 Definition x_crash (s : cfs) : cfs * (Z * list N) :=
-  ({| cfiles := map (fun c => {| cur := dur c; dur := dur c |}) (cfiles s); cfds := [] |}, (0%Z, [])).
+  ({| cfiles := map (fun c => {| cur := dur c; dur := dur c; pend := [] |}) (cfiles s); cfds := []; ccap := ccap s |}, (0%Z, [])).
 (* FileExt::read_at / write_at / File::sync_all on an open descriptor; the shim
    refuses a use the descriptor was not opened for with PermissionDenied
    (rendered as -13) *)
@@ -105,8 +125,8 @@ Definition CDrop (rid : N) : hev CFS := @HDrop CFS rid.
 Definition CCrash : hev CFS := @HCrash CFS.
 Definition CFs (f : cfs -> cfs * (Z * list N)) : hev CFS := @HFs CFS f.
 
-Definition cfs_init (nfiles : nat) : cfs :=
-  {| cfiles := repeat {| cur := []; dur := [] |} nfiles; cfds := [] |}.
+Definition cfs_init (nfiles : nat) (cap : option N) : cfs :=
+  {| cfiles := repeat {| cur := []; dur := []; pend := [] |} nfiles; cfds := []; ccap := cap |}.
 
-Definition crun (nfiles : nat) (es : list (hev CFS)) : list (N * list Z * list N) :=
-  hrun_enc CFS (cfs_init nfiles) es.
+Definition crun (nfiles : nat) (cap : option N) (es : list (hev CFS)) : list (N * list Z * list N) :=
+  hrun_enc CFS (cfs_init nfiles cap) es.
